@@ -78,6 +78,8 @@ func judge(c Case, proj *dawn.Project, loadErr error, evs *events, where string)
 	return nil
 }
 
+var reloadLimit = 20 * time.Second
+
 func execReload(rc ReloadCase) (v ev.Verdict) {
 	if len(rc.Graphs) < 2 {
 		return ev.Verdict{Skip: "short"}
@@ -122,7 +124,8 @@ func execReload(rc ReloadCase) (v ev.Verdict) {
 		var rerr error
 		select {
 		case rerr = <-done:
-		case <-time.After(20 * time.Second):
+		case <-time.After(reloadLimit):
+			reloadLimit = 2 * time.Second // a confirmed hang: do not spend 20 s on each case while rapid shrinks it
 			return ev.Failf("reload-hangs", "reload %d has not returned after 20 s", i+1)
 		}
 		if panicked != nil {
